@@ -127,7 +127,9 @@ def r2(ctx):
 
 
 def _table_fn(f):
-    return f.qualname.endswith(("_upper_triangle_indices", "_full_matrix_size")) or "triu_indices" in f.name
+    ref = getattr(f, "reference_qualname", None) or f.qualname       # a renamed stand-in answers to its reference name
+    return ref.endswith(("_upper_triangle_indices", "_full_matrix_size")) or f.qualname.endswith(("_upper_triangle_indices", "_full_matrix_size")) \
+        or "triu_indices" in f.name
 
 
 def scatter_site(ana):
